@@ -2,6 +2,8 @@ import Uom.Model.Conv
 import Uom.Model.Oracle
 import Uom.Proofs.FlConvIdentity
 import Uom.Proofs.KernelFloat
+import Uom.Proofs.FlCanonical
+import Uom.Proofs.FlFold
 /-!
 # C03 — unit conversion on construction and read-back is numerically faithful (floats)
 
@@ -106,6 +108,24 @@ theorem roundtrip_accuracy (f : Fmt) (hp : 1 ≤ f.p) (coef fac v : Fl)
 theorem approx_closed_form (u : Rat) (k : ℕ) (xh x : Rat) (hu0 : 0 ≤ u) (hu1 : u < 1)
     (h : Proofs.Approx u k xh x) : |xh - x| ≤ ((1 - u) ^ (-(k : ℤ)) - 1) * |x| :=
   Proofs.Approx.abs_sub_le' hu0 hu1 h
+
+/-- the identity holds for **every bit pattern** of binary64 / binary32 (each decodes to a canonical value,
+    and re-encodes to itself unless it is a NaN) -/
+theorem new_id_all_bits_f64 (bits : Nat) (c : Fl) (hfin : c.isFinite = true) (hnz : c.isZero = false) :
+    toBase (flS b64) c (Fl.zero b64 true) c (Fl.ofBits b64 bits) = Fl.ofBits b64 bits :=
+  new_id b64 b64_wf _ c (Fl.ofBits_canonical_b64 bits) hfin hnz
+
+theorem new_id_all_bits_f32 (bits : Nat) (c : Fl) (hfin : c.isFinite = true) (hnz : c.isZero = false) :
+    toBase (flS b32) c (Fl.zero b32 true) c (Fl.ofBits b32 bits) = Fl.ofBits b32 bits :=
+  new_id b32 b32_wf _ c (Fl.ofBits_canonical_b32 bits) hfin hnz
+
+theorem bits_roundtrip_f64 (bits : Nat) (hb : bits < 2 ^ 64) (hnan : Fl.ofBits b64 bits ≠ Fl.nan) :
+    Fl.toBits b64 (Fl.ofBits b64 bits) = bits := Fl.toBits_ofBits_b64 bits hb hnan
+
+/-- every result of the conversion kernel is again a canonical value (so results can be fed back) -/
+theorem results_canonical (f : Fmt) (hf : f.WF) (v coef c fac : Fl) :
+    Fl.Canonical f (toBase (flS f) coef c fac v) ∧ Fl.Canonical f (fromBase (flS f) coef c fac v) :=
+  ⟨Fl.toBase_canonical hf v coef c fac, Fl.fromBase_canonical hf v coef c fac⟩
 
 /-- both real formats satisfy the well-formedness hypothesis of the identity theorems -/
 theorem formats_wf : b64.WF ∧ b32.WF := ⟨b64_wf, b32_wf⟩
